@@ -233,6 +233,8 @@ def case_strategy(draw):
     ptot = draw(st.one_of(pressure(-2, 2), pressure(-2, 2), st.sampled_from([1.0, 10.0, 100.0])))
     if custom_mode != "ideal" and family == "wet_dense":
         ptot = float("%.4g" % (30.0 * 10.0 ** (draw(st.integers(0, 1300)) / 1000.0)))      # 30 .. 600 atm
+        if draw(st.integers(0, 2)):
+            sol["temp"] = gp["temp"] = tc = float(draw(st.integers(0, 600))) / 10.0          # cold and dense: phi of water ~ 0.01 .. 0.1
     # reaction temperatures: none, one, or a sequence (one batch-reaction step each; the engine keeps EOS data between steps)
     rtemp = None
     if draw(st.integers(0, 4)) == 0:
